@@ -2,11 +2,11 @@
 
 Kernel: Output.plot and _plot_core of the standard line plot, obsfcst, qq,
 sort, hist, freq (harness `diagrams`) and qq with -x/-q, scatter, error, change,
-cond, marginal, timeseries (`diagrams2.*`), on a real Data object with symbolic cells.
+cond, marginal, reliability, timeseries (`diagrams2.*`), on a real Data object with symbolic cells.
 Boundary: matplotlib.pyplot is a recording stub -- the claim concerns the x / y
 arrays handed to plot()/bar(), one series per input in command-line order, and
 that every valid case falls in exactly one bin of a binned diagram.
-NOT decided: the other 15 diagrams, maps, rank and impact views, and whether
+NOT decided: the other 14 diagrams, maps, rank and impact views, and whether
 matplotlib draws what it is given."""
 import numpy as np
 
@@ -210,7 +210,7 @@ def run(S, which, T, L, P):
                 S.prove("bin-height=%s" % which, S.same(ys[b], w), twin=S.same(ys[b], w + 1))
 
 
-DIAGRAMS2 = ["qq+quantiles/location", "qq+quantiles/no", "scatter/no", "scatter/location", "error/location", "change", "cond", "marginal/above", "marginal/below", "timeseries"]
+DIAGRAMS2 = ["reliability/below", "reliability/above", "qq+quantiles/location", "qq+quantiles/no", "scatter/no", "scatter/location", "error/location", "change", "cond", "marginal/above", "marginal/below", "timeseries"]
 
 
 def h_diagrams2(which, big):
@@ -230,7 +230,8 @@ def run2(S, which, big):
     f = load.modules["verif.field"]
     MI = common.input_class()
     T, L, P = {"scatter/no": (2, 1, 2), "scatter/location": (2, 1, 2), "error/location": (2, 1, 2), "change": (3, 1, 1),
-               "cond": (2, 1, 1), "qq+quantiles/location": (2, 1, 2), "qq+quantiles/no": (2, 1, 1), "marginal/above": (2, 1, 2), "marginal/below": (2, 1, 2), "timeseries": (2, 2, 2)}[which]
+               "cond": (2, 1, 1), "qq+quantiles/location": (2, 1, 2), "qq+quantiles/no": (2, 1, 1),
+               "reliability/below": (3, 1, 1), "reliability/above": (3, 1, 1), "marginal/above": (2, 1, 2), "marginal/below": (2, 1, 2), "timeseries": (2, 2, 2)}[which]
     if big and which in ("scatter/no", "scatter/location"):
         L = 2
     if big and which == "cond":
@@ -261,6 +262,10 @@ def run2(S, which, big):
                 xq[cells[-1] + (0,)] = S.real("B.q?", nan=True)
             kw = {"quantiles": S.const([0.1, 0.9]), "quantile_scores": xq}
             rawp.append(xq)
+        if which.startswith("reliability"):
+            pr = S.array(nm + ".p", shape + (1,), nan=False, lo=0, hi=1)
+            kw = {"thresholds": S.const([1.0]), "threshold_scores": pr}
+            rawp.append(pr)
         if which.startswith("marginal"):
             pr = S.array(nm + ".p", shape + (2,), nan=False)
             if nm == "B":
@@ -305,6 +310,11 @@ def run2(S, which, big):
     elif which == "cond":
         pl = out.Cond()
         pl.thresholds = S.vector(t)
+    elif which.startswith("reliability"):
+        pl = out.Reliability()
+        pl.thresholds = S.const([1.0])
+        pl.quantiles = [0.0, 0.5, 1.0]          # bin edges of the forecast probability (-q)
+        pl.bin_type = which.split("/")[1]
     elif which.startswith("marginal"):
         pl = out.Marginal()
         pl.thresholds = S.const(THR)
@@ -331,6 +341,27 @@ def run2(S, which, big):
         got = S.elements(got)
         return len(got) == len(want) and bool(S.all(S.same(a, b) for a, b in zip(got, want)))
 
+    if which.startswith("reliability"):
+        below = which.endswith("below")
+        edges = [0.0, 0.5, 1.0]
+        sel = [q for q in cells if valid(q, need_fcst=False, extra=0)]
+        S.prove("one-series-per-input-in-order", [c[3]["label"] for c in series][:2] == list(names) and len(series) == 2, detail=which)
+        for k, c in enumerate(series[:2]):
+            xs, ys = S.elements(c[2][0]), S.elements(c[2][1])
+            S.prove("one-point-per-bin", len(xs) == 2 and len(ys) == 2, detail=which)
+            if len(xs) != 2:
+                continue
+            prob = {q: (rawp[k][q + (0,)] if below else 1 - rawp[k][q + (0,)]) for q in sel}
+            counted = 0
+            for b in range(2):
+                # every probability in [0, 1] belongs to exactly one bin: the top edge belongs to the last bin
+                inb = [q for q in sel if bool(S.and_(prob[q] >= edges[b], (prob[q] <= edges[b + 1]) if b == 1 else (prob[q] < edges[b + 1])))]
+                counted += len(inb)
+                w = mean([prob[q] for q in inb]) if inb else 0.0
+                S.prove("bin-x=mean-forecast-probability-of-its-cases", S.same(xs[b], w), twin=S.same(xs[b], w + 1), detail=which)
+                S.prove("fewer-than-5-cases-give-no-frequency", bool(S.isnan(ys[b])), detail=which)
+            S.prove("each-case-in-exactly-one-bin", counted == len(sel), detail=which)
+        return
     if which.startswith("qq+quantiles"):
         # cases need obs, fcst and both quantiles of every input
         sel = [q for q in common_cells if all(valid(q, extra=e) for e in (0, 1))]
